@@ -233,6 +233,19 @@ def judge(spec, rec):
         raise Violation('wrong-error/%s/%s' % (clause, type(r).__name__), 'refused with %s (%s), expected %s: %s'
                         % (type(r).__name__, str(r)[:120], '/'.join(c.__name__ for c in allowed), what))
 
+    # --- history: the identical submission sent again to the SAME grader object is refused again (a seeded change
+    # remembered an input as "validated" before its validation had succeeded, so the second attempt was graded)
+    st2, r2 = run(G, cheat, seed)
+    rec.calls()
+    if st2 == 'ok':
+        raise Violation('resubmission-graded/' + clause, 'the same grader refused this input (%s) and then graded the '
+                        'identical resubmission %r: %s' % (type(r).__name__, grades_of(r2), what), result=r2)
+    if not isinstance(r2, MITxError):
+        raise r2
+    if type(r2) is not type(r):
+        raise Violation('resubmission-different-error/' + clause, 'first refusal %s, identical resubmission %s: %s' % (
+            type(r).__name__, type(r2).__name__, what))
+
     # --- classes
     rec.cls('grader/' + spec['g']['$grader'])
     rec.cls('clause/' + clause)
@@ -1264,3 +1277,57 @@ PARTS = [
     Part('random', 'hyp', judge, strategy=strat_random, budget={'quick': 5000, 'thorough': 200000}),
     Part('sum-author-parts', 'enum', judge_author_parts, items=items_author_parts, exhaustive=True),
 ]
+
+
+# ----------------------------------------------------------------------------------------------------------------
+# instructor-only INSTANCES of numbered variables (names that only exist once an expression mentions them)
+# added after a seeded change that computed the list of names to hide from students at construction time, from the
+# declared variables and constants only
+
+def items_numbered_instructor(tier):
+    cheats = ['n+0*a_{0}', 'n*a_{0}^0', 'n+a_{0}-a_{0}', 'n+sin(0*a_{0})', 'n+0*a_{0}+0*a_{1}']
+    for kind in ('Sum', 'Sum-limit', 'Formula', 'Matrix'):
+        yield {'kind': kind, 'input': 'honest'}
+        for c in cheats:
+            yield {'kind': kind, 'input': c}
+
+
+def judge_numbered_instructor(spec, rec):
+    from mitxgraders import SumGrader as _S, FormulaGrader as _F, MatrixGrader as _M
+    kind, inp = spec['kind'], spec['input']
+    common = dict(numbered_vars=['a'], instructor_vars=['a_{0}'], sample_from={'a': [2, 3]})
+    if kind.startswith('Sum'):
+        g = _S(answers={'lower': '1', 'upper': '3', 'summand': 'n+0*a_{0}', 'summation_variable': 'n'}, **common)
+        if inp == 'honest':
+            sub = ['1', '3', 'n', 'n']
+        elif kind == 'Sum':
+            sub = ['1', '3', inp, 'n']
+        else:
+            sub = ['1+0*a_{0}', '3', 'n', 'n'] if 'a_{1}' not in inp else ['1', '3+a_{0}-a_{0}', 'n', 'n']
+    else:
+        cls = _F if kind == 'Formula' else _M
+        g = cls(answers='n+0*a_{0}', variables=['n'], **common)
+        sub = 'n' if inp == 'honest' else inp
+    set_seed(3)
+    status, r = call(g, None, sub)
+    rec.calls()
+    rec.cls('numbered-instructor/' + kind)
+    rec.nontrivial()
+    if inp == 'honest':
+        if status != 'ok' or r.get('ok') is not True:
+            raise Violation('control/honest-refused/numbered-instructor', '%s: honest input %r gave %r' % (kind, sub, r))
+        return {'honest': True}
+    if status == 'ok':
+        raise Violation('graded/instructor-numbered-instance', '%s: input %r uses the instructor-only instance a_{0} '
+                        'and was graded %r' % (kind, sub, r))
+    if not isinstance(r, (UndefinedVariable, UndefinedFunction)):
+        if isinstance(r, MITxError):
+            raise Violation('wrong-error/instructor-numbered-instance/' + type(r).__name__,
+                            '%s: input %r refused with %s: %s' % (kind, sub, type(r).__name__, str(r)[:150]))
+        raise r
+    return {'refused_with': type(r).__name__}
+
+
+PARTS.append(Part('numbered-instructor', 'enum', judge_numbered_instructor, items=items_numbered_instructor,
+                  exhaustive=True))
+REQUIRED['numbered-instructor/Sum'] = 3
